@@ -387,10 +387,15 @@ def make_pulp_enum_solver():
         def actualSolve(self, lp, **kw):
             variables = lp.variables()
             index = {v.name: i for i, v in enumerate(variables)}
-            for v in variables:
-                if v.cat != pulp.LpInteger or v.lowBound != 0 or v.upBound != 1:
-                    raise StubSolverError("stand-in handles binary variables only: %s" % v.name)
             rows, senses, rhs = [], [], []
+            for v in variables:
+                if v.lowBound is not None and v.lowBound == v.upBound and v.lowBound in (0, 1):
+                    # a fixed variable (PuLP's own "__dummy" for an empty objective): one equality row
+                    rows.append(((index[v.name],), (1.0,)))
+                    senses.append('E')
+                    rhs.append(float(v.lowBound))
+                elif v.cat != pulp.LpInteger or v.lowBound != 0 or v.upBound != 1:
+                    raise StubSolverError("stand-in handles binary variables only: %s" % v.name)
             for cname, c in lp.constraints.items():
                 idx = tuple(index[v.name] for v in c.keys())
                 coef = tuple(float(x) for x in c.values())
